@@ -115,8 +115,10 @@ pub enum Item {
   Register,
   Poll { t_in: u64, timeout: Option<u64>, res: PollRes, t_out: u64 },
   /// res None + end false = Busy
-  NextK { res: Option<Event>, end: bool, t_out: u64 },
-  NextT { res: Option<bool>, end: bool, t_out: u64 },
+  /// `phantom`: the event is not the next one of the script (the reader under test made it up,
+  /// e.g. out of a record it should have skipped)
+  NextK { res: Option<Event>, end: bool, t_out: u64, phantom: bool },
+  NextT { res: Option<bool>, end: bool, t_out: u64, phantom: bool },
   Send { evs: Vec<Event>, t_out: u64 },
   Fail { what: &'static str },
 }
@@ -125,8 +127,8 @@ pub fn item_str(it: &Item) -> String {
   match it {
     Item::Register => "register_poll".into(),
     Item::Poll { t_in, timeout, res, t_out } => format!("poll(t={}us, timeout={:?}us) -> {:?} @{}us", t_in, timeout, res, t_out),
-    Item::NextK { res, end, t_out } => format!("next_keyboard -> {} @{}us", if *end { "End".to_string() } else { res.as_ref().map(ev_str).unwrap_or("Busy".into()) }, t_out),
-    Item::NextT { res, end, t_out } => format!("next_tablet -> {} @{}us", if *end { "End".to_string() } else { res.map(|b| if b { "On".to_string() } else { "Off".to_string() }).unwrap_or("Busy".into()) }, t_out),
+    Item::NextK { res, end, t_out, phantom } => format!("next_keyboard -> {}{} @{}us", if *end { "End".to_string() } else { res.as_ref().map(ev_str).unwrap_or("Busy".into()) }, if *phantom { " (not in the script)" } else { "" }, t_out),
+    Item::NextT { res, end, t_out, phantom } => format!("next_tablet -> {}{} @{}us", if *end { "End".to_string() } else { res.map(|b| if b { "On".to_string() } else { "Off".to_string() }).unwrap_or("Busy".into()) }, if *phantom { " (not in the script)" } else { "" }, t_out),
     Item::Send { evs, t_out } => format!("send {} @{}us", evs_str(evs), t_out),
     Item::Fail { what } => format!("{} -> Err({})", what, INJECTED),
   }
@@ -157,7 +159,8 @@ pub struct SimStats {
 }
 
 pub trait ByteLayer {
-  fn push_kbd(&mut self, e: &Event, tape: &mut Tape);
+  /// `held`: the keys held on the physical keyboard just before `e` (what a real keyboard would auto-repeat)
+  fn push_kbd(&mut self, e: &Event, tape: &mut Tape, held: &[KeyCode]);
   fn push_tab(&mut self, on: bool, tape: &mut Tape);
   /// read one keyboard event through the real driver; None = Busy (EAGAIN)
   fn read_kbd(&mut self) -> Result<Option<Event>, String>;
@@ -227,6 +230,8 @@ pub struct Sim<'a> {
   pub stats: SimStats,
   pub bytes: Option<&'a mut dyn ByteLayer>,
   pub byte_error: Option<String>,
+  /// every disagreement noted (the first few), so that each property's check finds the one that is its own
+  pub byte_notes: Vec<String>,
   cap: usize,
   syspoll: bool,
   poll_fault: Option<(usize, u8)>,
@@ -234,6 +239,7 @@ pub struct Sim<'a> {
   sys_asked: Option<Duration>,
   sys_answer: Option<KAns>,
   sys_stall: bool,
+  script_phys: Vec<KeyCode>,
 }
 
 impl<'a> Sim<'a> {
@@ -243,10 +249,10 @@ impl<'a> Sim<'a> {
     Sim { tape, cfg: case.cfg.clone(), kbd: case.kbd.iter().cloned().collect(), tab: if case.has_tablet { case.tab.iter().cloned().collect() } else { VecDeque::new() }, has_tablet: case.has_tablet,
       kbd_ready: VecDeque::new(), tab_ready: VecDeque::new(), kbd_notify: false, tab_notify: false, trace: vec![], fail_at: case.fail_at, calls: 0,
       kbd_ended: false, tab_ended: false, kbd_end_at: case.kbd_end_at, tab_end_at: if case.has_tablet { case.tab_end_at } else { None }, extra_ticks: case.extra_ticks, interrupts: 0, in_drain: false, write_fault: if case.hybrid { case.write_fault } else { None }, read_fault: if case.hybrid { case.read_fault } else { None }, kbd_reads_done: 0, tab_reads_done: 0, sends_done: 0, hw_failed: false, kbd_sabotaged: false, tab_sabotaged: false, kbd_hup_checked: false, tab_hup_checked: false,
-      stats: SimStats::default(), bytes, byte_error: None,
+      stats: SimStats::default(), bytes, byte_error: None, byte_notes: vec![],
       // runaway guard; scaled for marathon scripts
       cap: TRACE_CAP.max(10 * (case.kbd.len() + case.tab.len()) + 1000),
-      syspoll: case.hybrid && case.syspoll, poll_fault: if case.hybrid && case.syspoll { case.poll_fault } else { None }, sys_waits_done: 0, sys_asked: None, sys_answer: None, sys_stall: false }
+      syspoll: case.hybrid && case.syspoll, poll_fault: if case.hybrid && case.syspoll { case.poll_fault } else { None }, sys_waits_done: 0, sys_asked: None, sys_answer: None, sys_stall: false, script_phys: vec![] }
   }
   fn now(&self) -> u64 { sim_now_us() }
   /// move the clock to `to` (never backwards) and deliver everything that has arrived by then
@@ -266,7 +272,8 @@ impl<'a> Sim<'a> {
       if tk == Some(t) {
         let (_, e) = self.kbd.pop_front().unwrap();
         if self.kbd_sabotaged { continue; } // the descriptor is dead: nothing more can be read from it
-        if let Some(b) = self.bytes.as_mut() { b.push_kbd(&e, &mut self.tape); }
+        if let Some(b) = self.bytes.as_mut() { b.push_kbd(&e, &mut self.tape, &self.script_phys); }
+        fold1(&mut self.script_phys, &e);
         self.kbd_ready.push_back(e); self.kbd_notify = true;
         if self.in_drain { self.stats.arrival_during_drain += 1; }
         continue;
@@ -406,6 +413,7 @@ impl<'a> Sim<'a> {
       let ceil_ms = (d.as_micros() + 999) / 1000;
       if d.as_micros() % 1000 != 0 && (timeout_ms as i128) < ceil_ms as i128 && timeout_ms >= 0 { self.stats.sys_subms_truncated += 1; }
       if timeout_ms < 0 || timeout_ms as u128 > ceil_ms + 1 {
+        if self.byte_notes.len() < 12 { self.byte_notes.push(format!("[driver][timer] the loop asked its driver to wait at most {}us, the driver's wait system call was made with a time-out of {} ms", d.as_micros(), timeout_ms)); }
         if self.byte_error.is_none() { self.byte_error = Some(format!("[driver][timer] the loop asked its driver to wait at most {}us, the driver's wait system call was made with a time-out of {} ms{}", d.as_micros(), timeout_ms, if timeout_ms < 0 { " (for ever)" } else { "" })); }
       }
     }
@@ -481,6 +489,88 @@ impl<'a> Sim<'a> {
     }
   }
 
+  /// Hybrid runs: the loop gets what the shipped driver makes of the bytes in the pipe — nothing is
+  /// repaired. The script is only used to say which of the events handed out are the scripted ones
+  /// (in order) and which are not (`phantom`), and to note disagreements.
+  fn wire_note(&mut self, m: String) { if self.byte_notes.len() < 12 { self.byte_notes.push(m.clone()); } if self.no_wire_error() { self.byte_error = Some(m); } }
+  fn next_keyboard_through_real_driver(&mut self) -> Result<VNext<Event>, String> {
+    let dry_and_gone = self.kbd_ended && self.kbd_ready.is_empty();
+    if dry_and_gone { self.bytes.as_mut().unwrap().unplug(false); self.stats.os_enodev += 1; }
+    match self.bytes.as_mut().unwrap().raw_next_keyboard() {
+      Ok(VNext::One(got)) => {
+        let mut phantom = false;
+        if self.kbd_ready.front() == Some(&got) { self.kbd_ready.pop_front(); }
+        else if let Some(pos) = self.kbd_ready.iter().position(|x| *x == got) {
+          let lost: Vec<Event> = self.kbd_ready.drain(..pos).collect(); self.kbd_ready.pop_front();
+          self.wire_note(format!("real reader returned {} where {} was written ({} event(s) were never handed out)", ev_str(&got), ev_str(&lost[0]), lost.len()));
+        } else {
+          phantom = true;
+          if dry_and_gone { if self.byte_error.is_none() { self.byte_error = Some(format!("[driver] the keyboard was unplugged (read fails with ENODEV) but the real driver handed out {}", ev_str(&got))); } }
+          else if let Some(e) = self.kbd_ready.front().cloned() { self.wire_note(format!("real reader returned {} where {} was written", ev_str(&got), ev_str(&e))); }
+          else { self.wire_note(format!("real reader returned {} although no key event was pending", ev_str(&got))); }
+        }
+        self.trace.push(Item::NextK { res: Some(got.clone()), end: false, t_out: self.now(), phantom });
+        Ok(VNext::One(got))
+      }
+      Ok(VNext::Busy) => {
+        if dry_and_gone { if self.byte_error.is_none() { self.byte_error = Some("[driver] the keyboard was unplugged (read fails with ENODEV) but the real driver told the loop Busy: the loop would never stop".into()); } }
+        else if let Some(e) = self.kbd_ready.front().cloned() { self.wire_note(format!("real reader reported EAGAIN although {} was written", ev_str(&e))); }
+        self.trace.push(Item::NextK { res: None, end: false, t_out: self.now(), phantom: false });
+        Ok(VNext::Busy)
+      }
+      Ok(VNext::End) => {
+        if !self.kbd_ended { self.wire_note("the real driver reported End on a pipe that is still open".into()); }
+        self.trace.push(Item::NextK { res: None, end: true, t_out: self.now(), phantom: false });
+        Ok(VNext::End)
+      }
+      Err(e) => {
+        if self.kbd_ended {
+          // reporting the unplug as a failure is as good as End: the loop must then stop with that error
+          self.hw_failed = true; self.trace.push(Item::Fail { what: "next_keyboard (ENODEV reported as an error by the driver)" });
+          Err(format!("{}: {}", INJECTED, e))
+        } else { self.wire_note(format!("real reader failed: {}", e)); Err(e) }
+      }
+    }
+  }
+  fn next_tablet_through_real_driver(&mut self) -> Result<VNext<bool>, String> {
+    let dry_and_gone = self.has_tablet && self.tab_ended && self.tab_ready.is_empty();
+    if dry_and_gone { self.bytes.as_mut().unwrap().unplug(true); self.stats.os_enodev += 1; }
+    match self.bytes.as_mut().unwrap().raw_next_tablet() {
+      Ok(VNext::One(got)) => {
+        let mut phantom = false;
+        if self.tab_ready.front() == Some(&got) { self.tab_ready.pop_front(); }
+        else if let Some(pos) = self.tab_ready.iter().position(|x| *x == got) {
+          let lost = pos; self.tab_ready.drain(..pos); self.tab_ready.pop_front();
+          self.wire_note(format!("[tablet] the real tablet reader skipped {} switch event(s) that were written", lost));
+        } else {
+          phantom = true;
+          if dry_and_gone { if self.byte_error.is_none() { self.byte_error = Some(format!("[driver] the tablet switch was unplugged (read fails with ENODEV) but the real driver handed out {}", got)); } }
+          else if self.tab_ready.is_empty() { self.wire_note("[tablet] the real tablet reader returned an event although none was pending".into()); }
+          else { self.wire_note(format!("[tablet] the real tablet reader returned {} where {} was written", got, !got)); }
+        }
+        self.trace.push(Item::NextT { res: Some(got), end: false, t_out: self.now(), phantom });
+        Ok(VNext::One(got))
+      }
+      Ok(VNext::Busy) => {
+        if dry_and_gone { if self.byte_error.is_none() { self.byte_error = Some("[driver] the tablet switch was unplugged (read fails with ENODEV) but the real driver told the loop Busy".into()); } }
+        else if !self.tab_ready.is_empty() { self.wire_note("[tablet] the real tablet reader reported EAGAIN although a switch event was written".into()); }
+        self.trace.push(Item::NextT { res: None, end: false, t_out: self.now(), phantom: false });
+        Ok(VNext::Busy)
+      }
+      Ok(VNext::End) => {
+        if self.has_tablet && !self.tab_ended { self.wire_note("[tablet] the real driver reported End on a tablet pipe that is still open".into()); }
+        self.trace.push(Item::NextT { res: None, end: true, t_out: self.now(), phantom: false });
+        Ok(VNext::End)
+      }
+      Err(e) => {
+        if self.tab_ended {
+          self.hw_failed = true; self.trace.push(Item::Fail { what: "next_tablet (ENODEV reported as an error by the driver)" });
+          Err(format!("{}: {}", INJECTED, e))
+        } else { self.wire_note(format!("[tablet] the real tablet reader failed: {}", e)); Err(e) }
+      }
+    }
+  }
+
   fn poll_through_real_driver(&mut self, timeout: Option<Duration>) -> Result<VPoll, String> {
     self.in_drain = false;
     let t_in = self.now();
@@ -501,7 +591,7 @@ impl<'a> Sim<'a> {
     self.sys_asked = None;
     if self.sys_stall { return Err("simulator: runaway loop (the keyboard is gone and the loop was notified, but it waits again without having read the end of the device)".to_string()); }
     let answer = self.sys_answer.take();
-    let note = |s: &mut Sim<'a>, m: String| { if s.byte_error.is_none() { s.byte_error = Some(m); } };
+    let note = |s: &mut Sim<'a>, m: String| { if s.byte_notes.len() < 12 { s.byte_notes.push(m.clone()); } if s.byte_error.is_none() { s.byte_error = Some(m); } };
     let res = match r {
       Err(e) => {
         return if answer == Some(KAns::Error) { Err(format!("{}: {}", INJECTED, e)) } else { Err(e) };
@@ -634,7 +724,7 @@ impl<'a> VerifDriver for Sim<'a> {
     self.maybe_fail("next_keyboard")?;
     self.latency();
     let kr = self.kbd_reads_done; self.kbd_reads_done += 1;
-    if self.hw_failed { self.trace.push(Item::NextK { res: None, end: true, t_out: self.now() }); return Ok(VNext::End); }
+    if self.hw_failed { self.trace.push(Item::NextK { res: None, end: true, t_out: self.now(), phantom: false }); return Ok(VNext::End); }
     if let (Some((at, false)), true) = (self.read_fault, self.bytes.is_some()) {
       if at == kr && !self.kbd_sabotaged {
         // from now on every read system call on the keyboard descriptor fails (EBADF); a reader may
@@ -647,46 +737,18 @@ impl<'a> VerifDriver for Sim<'a> {
       let b = self.bytes.as_mut().unwrap();
       return match b.raw_next_keyboard() {
         Err(e) => { self.hw_failed = true; self.trace.push(Item::Fail { what: "next_keyboard (OS-level read failure under the real driver)" }); Err(format!("{}: {}", INJECTED, e)) }
-        Ok(VNext::One(e)) if self.kbd_ready.front() == Some(&e) => { self.kbd_ready.pop_front(); self.trace.push(Item::NextK { res: Some(e.clone()), end: false, t_out: sim_now_us() }); Ok(VNext::One(e)) }
+        Ok(VNext::One(e)) if self.kbd_ready.front() == Some(&e) => { self.kbd_ready.pop_front(); self.trace.push(Item::NextK { res: Some(e.clone()), end: false, t_out: sim_now_us(), phantom: false }); Ok(VNext::One(e)) }
         // Busy, End or an event that was never delivered although the descriptor is dead: the failure was hidden
         Ok(other) => { self.hw_failed = true; self.trace.push(Item::Fail { what: "next_keyboard (OS-level read failure hidden by the driver)" }); Ok(other) }
       };
     }
+    if self.bytes.is_some() { return self.next_keyboard_through_real_driver(); }
     let r = if !self.kbd_ready.is_empty() {
       let e = self.kbd_ready.pop_front().unwrap();
-      let e = match self.bytes.as_mut() {
-        None => e,
-        Some(b) => match b.read_kbd() {
-          Ok(Some(got)) => { if got != e && self.no_wire_error() { self.byte_error = Some(format!("real reader returned {} where {} was written", ev_str(&got), ev_str(&e))); } got }
-          Ok(None) => { if self.no_wire_error() { self.byte_error = Some(format!("real reader reported EAGAIN although {} was written", ev_str(&e))); } e }
-          Err(er) => { if self.no_wire_error() { self.byte_error = Some(format!("real reader failed: {}", er)); } e }
-        }
-      };
-      self.trace.push(Item::NextK { res: Some(e.clone()), end: false, t_out: self.now() });
+      self.trace.push(Item::NextK { res: Some(e.clone()), end: false, t_out: self.now(), phantom: false });
       VNext::One(e)
-    } else {
-      if let (Some(b), false) = (self.bytes.as_mut(), self.kbd_ended) {
-        // nothing delivered: the real reader must skip any foreign records and report EAGAIN
-        match b.read_kbd() { Ok(None) => {} Ok(Some(got)) => { if self.no_wire_error() { self.byte_error = Some(format!("real reader returned {} although no key event was pending", ev_str(&got))); } } Err(er) => { if self.no_wire_error() { self.byte_error = Some(format!("real reader failed: {}", er)); } } }
-      }
-      if self.kbd_ended {
-        // hybrid: the unplug happens at the system-call level (read fails with ENODEV) and the
-        // shipped driver decides what the loop is told
-        if let Some(b) = self.bytes.as_mut() {
-          b.unplug(false);
-          self.stats.os_enodev += 1;
-          match b.raw_next_keyboard() {
-            Ok(VNext::End) => {}
-            // reporting the unplug as a failure is as good as End: the loop must then stop with that error
-            Err(e) => { self.hw_failed = true; self.trace.push(Item::Fail { what: "next_keyboard (ENODEV reported as an error by the driver)" }); return Err(format!("{}: {}", INJECTED, e)); }
-            Ok(VNext::Busy) => { if self.byte_error.is_none() { self.byte_error = Some("[driver] the keyboard was unplugged (read fails with ENODEV) but the real driver told the loop Busy: the loop would never stop".into()); } }
-            Ok(VNext::One(e)) => { if self.byte_error.is_none() { self.byte_error = Some(format!("[driver] the keyboard was unplugged (read fails with ENODEV) but the real driver handed out {}", ev_str(&e))); } }
-          }
-        }
-        self.trace.push(Item::NextK { res: None, end: true, t_out: self.now() }); VNext::End
-      }
-      else { self.trace.push(Item::NextK { res: None, end: false, t_out: self.now() }); VNext::Busy }
-    };
+    } else if self.kbd_ended { self.trace.push(Item::NextK { res: None, end: true, t_out: self.now(), phantom: false }); VNext::End }
+    else { self.trace.push(Item::NextK { res: None, end: false, t_out: self.now(), phantom: false }); VNext::Busy };
     Ok(r)
   }
 
@@ -694,7 +756,7 @@ impl<'a> VerifDriver for Sim<'a> {
     self.maybe_fail("next_tablet")?;
     self.latency();
     let tr = self.tab_reads_done; self.tab_reads_done += 1;
-    if self.hw_failed { self.trace.push(Item::NextT { res: None, end: true, t_out: self.now() }); return Ok(VNext::End); }
+    if self.hw_failed { self.trace.push(Item::NextT { res: None, end: true, t_out: self.now(), phantom: false }); return Ok(VNext::End); }
     if let (Some((at, true)), true) = (self.read_fault, self.bytes.is_some()) {
       if at == tr && !self.tab_sabotaged {
         self.bytes.as_mut().unwrap().sabotage_reader(true);
@@ -705,41 +767,17 @@ impl<'a> VerifDriver for Sim<'a> {
       let b = self.bytes.as_mut().unwrap();
       return match b.raw_next_tablet() {
         Err(e) => { self.hw_failed = true; self.trace.push(Item::Fail { what: "next_tablet (OS-level read failure under the real driver)" }); Err(format!("{}: {}", INJECTED, e)) }
-        Ok(VNext::One(on)) if self.tab_ready.front() == Some(&on) => { self.tab_ready.pop_front(); self.trace.push(Item::NextT { res: Some(on), end: false, t_out: sim_now_us() }); Ok(VNext::One(on)) }
+        Ok(VNext::One(on)) if self.tab_ready.front() == Some(&on) => { self.tab_ready.pop_front(); self.trace.push(Item::NextT { res: Some(on), end: false, t_out: sim_now_us(), phantom: false }); Ok(VNext::One(on)) }
         Ok(other) => { self.hw_failed = true; self.trace.push(Item::Fail { what: "next_tablet (OS-level read failure hidden by the driver)" }); Ok(other) }
       };
     }
+    if self.bytes.is_some() { return self.next_tablet_through_real_driver(); }
     let r = if !self.tab_ready.is_empty() {
       let on = self.tab_ready.pop_front().unwrap();
-      let on = match self.bytes.as_mut() {
-        None => on,
-        Some(b) => match b.read_tab() {
-          Ok(Some(got)) => { if got != on && self.no_wire_error() { self.byte_error = Some(format!("real tablet reader returned {} where {} was written", got, on)); } got }
-          Ok(None) => { if self.no_wire_error() { self.byte_error = Some("real tablet reader reported EAGAIN although a switch event was written".into()); } on }
-          Err(er) => { if self.no_wire_error() { self.byte_error = Some(format!("real tablet reader failed: {}", er)); } on }
-        }
-      };
-      self.trace.push(Item::NextT { res: Some(on), end: false, t_out: self.now() });
+      self.trace.push(Item::NextT { res: Some(on), end: false, t_out: self.now(), phantom: false });
       VNext::One(on)
-    } else {
-      if let (Some(b), false) = (self.bytes.as_mut(), self.tab_ended) {
-        match b.read_tab() { Ok(None) => {} Ok(Some(_)) => { if self.no_wire_error() { self.byte_error = Some("real tablet reader returned an event although none was pending".into()); } } Err(er) => { if self.no_wire_error() { self.byte_error = Some(format!("real tablet reader failed: {}", er)); } } }
-      }
-      if self.tab_ended || !self.has_tablet {
-        if self.has_tablet { if let Some(b) = self.bytes.as_mut() {
-          b.unplug(true);
-          self.stats.os_enodev += 1;
-          match b.raw_next_tablet() {
-            Ok(VNext::End) => {}
-            Err(e) => { self.hw_failed = true; self.trace.push(Item::Fail { what: "next_tablet (ENODEV reported as an error by the driver)" }); return Err(format!("{}: {}", INJECTED, e)); }
-            Ok(VNext::Busy) => { if self.byte_error.is_none() { self.byte_error = Some("[driver] the tablet switch was unplugged (read fails with ENODEV) but the real driver told the loop Busy".into()); } }
-            Ok(VNext::One(on)) => { if self.byte_error.is_none() { self.byte_error = Some(format!("[driver] the tablet switch was unplugged (read fails with ENODEV) but the real driver handed out {}", on)); } }
-          }
-        } }
-        self.trace.push(Item::NextT { res: None, end: true, t_out: self.now() }); VNext::End
-      }
-      else { self.trace.push(Item::NextT { res: None, end: false, t_out: self.now() }); VNext::Busy }
-    };
+    } else if self.tab_ended || !self.has_tablet { self.trace.push(Item::NextT { res: None, end: true, t_out: self.now(), phantom: false }); VNext::End }
+    else { self.trace.push(Item::NextT { res: None, end: false, t_out: self.now(), phantom: false }); VNext::Busy };
     Ok(r)
   }
 
@@ -800,7 +838,7 @@ impl EnB {
 pub struct ObsB {
   pub nt_c10: bool, pub nt_c11: bool, pub nt_c12: bool, pub nt_c19: bool, pub nt_c20: bool,
   pub chords: u64, pub chords_while_held: u64, pub chord_key_held: u64, pub sends: u64, pub tablet_on_while_held: u64, pub tablet_on_while_timer: u64,
-  pub reads_in_tablet_mode: u64, pub timer_disarmed_by_event: u64, pub nochange_while_armed: u64, pub overdue_polls: u64, pub early_polls: u64, pub orphan_releases_after_tablet: u64,
+  pub reads_in_tablet_mode: u64, pub timer_disarmed_by_event: u64, pub nochange_while_armed: u64, pub overdue_polls: u64, pub early_polls: u64, pub orphan_releases_after_tablet: u64, pub phantom_events: u64,
   pub other_property_disagreements: u64,
   pub shape: u64,
 }
@@ -948,7 +986,7 @@ pub fn check_trace(l: &Layout, trace: &[Item], result: &Result<(), String>, en: 
           PollRes::Interrupted => { prev_interrupt_or_spurious = true; }
         }
       }
-      Item::NextK { res, end, t_out } => {
+      Item::NextK { res, end, t_out, phantom } => {
         if *end { ended = true; continue; }
         match res {
           None => { owed_k = false; }
@@ -961,6 +999,8 @@ pub fn check_trace(l: &Layout, trace: &[Item], result: &Result<(), String>, en: 
               // tablet-mode change, the release of a key whose press the loop has not handed to the
               // mapper since is owed nothing — whatever the mapper under test says
               match e {
+                // (an event the reader made up is not a press on the physical keyboard)
+                _ if *phantom => { obs.phantom_events += 1; }
                 Pressed(k) => { if !seen_pressed.contains(k) { seen_pressed.push(*k); } }
                 Released(k) => {
                   if let Some(p) = seen_pressed.iter().position(|x| x == k) { seen_pressed.remove(p); }
@@ -983,7 +1023,7 @@ pub fn check_trace(l: &Layout, trace: &[Item], result: &Result<(), String>, en: 
           }
         }
       }
-      Item::NextT { res, end, t_out: _ } => {
+      Item::NextT { res, end, .. } => {
         if *end { ended = true; continue; }
         match res {
           None => { owed_t = false; }
@@ -1114,7 +1154,7 @@ pub fn check_trace(l: &Layout, trace: &[Item], result: &Result<(), String>, en: 
   first
 }
 
-pub struct Outcome { pub trace: Vec<Item>, pub result: Result<(), String>, pub stats: SimStats, pub tape: Vec<u32>, pub calls: usize, pub sim_us: u64, pub slept_us: u64, pub byte_error: Option<String>, pub digest: u64 }
+pub struct Outcome { pub trace: Vec<Item>, pub result: Result<(), String>, pub stats: SimStats, pub tape: Vec<u32>, pub calls: usize, pub sim_us: u64, pub slept_us: u64, pub byte_error: Option<String>, pub byte_notes: Vec<String>, pub digest: u64 }
 
 /// Execute a case: run the real loop on the simulated driver. `record_seed` = Some(seed) fills the
 /// tape from the PRNG (the returned tape then belongs to the case); None replays the case's tape.
@@ -1128,5 +1168,5 @@ pub fn execute(case: &CaseB, record_seed: Option<u64>, bytes: Option<&mut dyn By
   let mut d = H::new();
   for it in &sim.trace { d.s(&item_str(it)); }
   d.u(result.is_ok() as u64);
-  Outcome { trace: sim.trace, result, stats: sim.stats, tape: sim.tape.vals, calls: sim.calls, sim_us, slept_us: slept, byte_error: sim.byte_error, digest: d.fin() }
+  Outcome { trace: sim.trace, result, stats: sim.stats, tape: sim.tape.vals, calls: sim.calls, sim_us, slept_us: slept, byte_error: sim.byte_error, byte_notes: sim.byte_notes, digest: d.fin() }
 }
